@@ -21,7 +21,9 @@ use std::future::Future;
 use std::io;
 use std::net::{IpAddr, Ipv4Addr, SocketAddr};
 use std::pin::Pin;
-use std::task::{Context, Poll, Waker};
+use std::sync::atomic::{AtomicBool, Ordering};
+use std::sync::Arc;
+use std::task::{Context, Poll, Wake, Waker};
 
 use rand::rngs::StdRng;
 use rand::{Rng, SeedableRng};
@@ -72,6 +74,17 @@ impl Cfg {
 
 type ConnFut = Pin<Box<dyn Future<Output = io::Result<TcpStream>>>>;
 
+/// A waker that only records that it was invoked: makes lost wake-ups observable.
+struct FlagWaker(AtomicBool);
+impl Wake for FlagWaker {
+    fn wake(self: Arc<Self>) {
+        self.0.store(true, Ordering::SeqCst);
+    }
+    fn wake_by_ref(self: &Arc<Self>) {
+        self.0.store(true, Ordering::SeqCst);
+    }
+}
+
 enum Client {
     Pending(ConnFut),
     Held(TcpStream),
@@ -92,6 +105,13 @@ struct World {
     rcap: usize,
     /// bind the listener to 0.0.0.0 instead of the acceptor host's address
     wild: bool,
+    /// parked accept futures (id -> flag waker); an accept "future" is a poll_accept call
+    /// site that owns a waker, exactly what `TcpListener::accept()` is
+    parked: Vec<(u64, Arc<FlagWaker>)>,
+    /// flags of accept futures that were dropped while parked (their wakers stay registered)
+    stale: Vec<Arc<FlagWaker>>,
+    /// loopback connection on the connector host (not part of the recorded scenario)
+    lo: Option<(TcpListener, TcpStream, TcpStream)>,
 }
 
 fn cx() -> Context<'static> {
@@ -166,6 +186,9 @@ impl World {
             written: HashMap::new(),
             rcap: cfg.rcap,
             wild: cfg.wild,
+            parked: Vec::new(),
+            stale: Vec::new(),
+            lo: None,
         }
     }
 
@@ -173,6 +196,7 @@ impl World {
     fn teardown(mut self) {
         set_current(self.h1);
         self.clients.clear();
+        self.lo = None;
         set_current(self.h2);
         self.servers.clear();
         self.listener = None;
@@ -521,6 +545,104 @@ impl World {
         };
         let npk = if res == "ok" { 1 } else { 0 };
         self.fin(json!({"ev": "udp", "n": n, "mode": mode, "res": res, "npk": npk}))
+    }
+
+    /// Poll `accept` with a fresh flag-waker future `a`: completes (accept event) or parks.
+    fn accept_park(&mut self, a: u64) -> Vec<Value> {
+        set_current(self.h2);
+        let Some(l) = self.listener.as_ref() else {
+            return vec![];
+        };
+        let fw = Arc::new(FlagWaker(AtomicBool::new(false)));
+        let waker = Waker::from(fw.clone());
+        let mut cxa = Context::from_waker(&waker);
+        match l.poll_accept(&mut cxa) {
+            Poll::Ready(Ok((s, peer))) => {
+                let pp = mport(peer.port());
+                let lp = s.local_addr().map(|a| mport(a.port())).unwrap_or(-1);
+                self.servers.insert(pp, Some(s));
+                vec![self.fin(json!({"ev": "accept", "pp": pp, "lp": lp}))]
+            }
+            Poll::Ready(Err(_)) => vec![],
+            Poll::Pending => {
+                self.parked.push((a, fw));
+                vec![json!({"ev": "apark", "a": a})]
+            }
+        }
+    }
+
+    /// Drop the parked accept future `a` (its waker stays registered at the listener).
+    fn accept_drop(&mut self, a: u64) -> Option<Value> {
+        let i = self.parked.iter().position(|x| x.0 == a)?;
+        let (_, fw) = self.parked.remove(i);
+        self.stale.push(fw);
+        Some(json!({"ev": "aunpark", "a": a, "why": "dropped"}))
+    }
+
+    /// Which parked accept futures have been woken, and the accept-queue depth.
+    fn wakes(&self) -> Value {
+        let woken: Vec<u64> = self.parked.iter().filter(|x| x.1 .0.load(Ordering::SeqCst)).map(|x| x.0).collect();
+        let lq = self.obs()["lq"].as_i64().unwrap_or(-1);
+        json!({"ev": "wakes", "woken": woken, "lq": lq})
+    }
+
+    /// A woken accept future is polled again by its task.
+    fn accept_repoll(&mut self) -> Vec<Value> {
+        let mut out = Vec::new();
+        let woken: Vec<u64> = self.parked.iter().filter(|x| x.1 .0.load(Ordering::SeqCst)).map(|x| x.0).collect();
+        for a in woken {
+            let i = self.parked.iter().position(|x| x.0 == a).unwrap();
+            self.parked.remove(i);
+            out.push(json!({"ev": "aunpark", "a": a, "why": "repolled"}));
+            out.extend(self.accept_park(a));
+        }
+        out
+    }
+
+    /// A loopback listener + established connection on the connector host, created before
+    /// anything else (so its sockets come first in the table). Not recorded.
+    fn lo_setup(&mut self) -> bool {
+        set_current(self.h1);
+        let lo_addr = SocketAddr::new(IpAddr::V4(Ipv4Addr::LOCALHOST), 9100);
+        let mut f = Box::pin(TcpListener::bind(lo_addr));
+        let Poll::Ready(Ok(l)) = f.as_mut().poll(&mut cx()) else {
+            return false;
+        };
+        drop(f);
+        let mut cf: ConnFut = Box::pin(TcpStream::connect(lo_addr));
+        let mut client = None;
+        let mut junk = Vec::new();
+        for _ in 0..6 {
+            set_current(self.h1);
+            if client.is_none() {
+                if let Poll::Ready(Ok(s)) = cf.as_mut().poll(&mut cx()) {
+                    client = Some(s);
+                }
+            }
+            self.guard.egress_all(&mut junk);
+        }
+        set_current(self.h1);
+        let server = match l.poll_accept(&mut cx()) {
+            Poll::Ready(Ok((s, _))) => s,
+            _ => return false,
+        };
+        match client {
+            Some(c) => {
+                self.lo = Some((l, c, server));
+                junk.is_empty()
+            }
+            None => false,
+        }
+    }
+
+    /// Queue `n` bytes on the loopback connection (unrecorded) and drain what arrived.
+    fn lo_traffic(&mut self, n: usize) {
+        set_current(self.h1);
+        if let Some((_, c, srv)) = &self.lo {
+            let _ = c.try_write(&vec![7u8; n]);
+            let mut buf = vec![0u8; 4096];
+            let _ = srv.try_read(&mut buf);
+        }
     }
 
     // ---- the wire ----------------------------------------------------------
@@ -1191,6 +1313,253 @@ fn overlap_run(cfg: &Cfg, rc: &RCfg, rng: &mut StdRng, events: &mut Vec<Value>) 
     w.teardown();
 }
 
+/// Canonical handshake of one connection with immediate delivery; returns the client port.
+fn establish(w: &mut World, events: &mut Vec<Value>, eps: &mut Vec<(i64, String)>) -> Option<i64> {
+    events.push(w.connect());
+    let want = eps.len() + 2;
+    for _ in 0..8 {
+        events.push(w.egress());
+        poll_into(w, events, eps);
+        while !w.wire.is_empty() {
+            events.push(w.deliver(1).unwrap());
+            poll_into(w, events, eps);
+        }
+        if let Some(e) = w.accept() {
+            eps.push((e["pp"].as_i64().unwrap(), "s".into()));
+            events.push(e);
+        }
+        if eps.len() >= want {
+            return Some(eps[eps.len() - 1].0);
+        }
+    }
+    None
+}
+
+/// Directed choreography 5: constant delay of `maxage` rounds per packet, no loss, and a writer
+/// that puts one small record on the wire every round for longer than any retransmit budget
+/// (every ACK it sees is partial).
+fn pipeline_run(cfg: &Cfg, rc: &RCfg, rng: &mut StdRng, events: &mut Vec<Value>) {
+    let mut w = World::new(cfg);
+    let mut eps: Vec<(i64, String)> = Vec::new();
+    events.push(w.listen());
+    let delay = rc.maxage;
+    if let Some(p) = establish(&mut w, events, &mut eps) {
+        let (wside, rside) = if rng.random_range(0..2) == 0 { ("c", "s") } else { ("s", "c") };
+        let rounds = 2 * rc.idle_rounds + 6 + rng.random_range(0..6);
+        for _ in 0..rounds {
+            let n = rng.random_range(1..=rc.wmax.max(1));
+            let data = w.next_bytes(p, wside, n);
+            if let Some(e) = w.write(p, wside, &data) {
+                events.push(e);
+            }
+            events.push(w.egress());
+            poll_into(&mut w, events, &mut eps);
+            // constant delay: a packet is handed over when it has spent `delay` rounds in flight
+            while let Some(i) = w.wire.iter().position(|x| x.1 >= delay) {
+                events.push(w.deliver(i + 1).unwrap());
+                poll_into(&mut w, events, &mut eps);
+            }
+            if let Some(e) = w.read(p, rside, rc.rmax.max(1)) {
+                events.push(e);
+            }
+        }
+        if let Some(e) = w.shutdown(p, wside) {
+            events.push(e);
+        }
+    }
+    settle(&mut w, events, &mut eps, rc);
+    w.teardown();
+}
+
+/// Directed choreography 6: data and FIN of the peer have arrived but are unread when the TCB
+/// is aborted (RST because the peer dropped its stream with unread data, or retransmit
+/// exhaustion of our own direction); only then the application reads.
+fn abortread_run(cfg: &Cfg, rc: &RCfg, rng: &mut StdRng, events: &mut Vec<Value>) {
+    let mut w = World::new(cfg);
+    let mut eps: Vec<(i64, String)> = Vec::new();
+    events.push(w.listen());
+    if let Some(p) = establish(&mut w, events, &mut eps) {
+        let (a, b) = if rng.random_range(0..2) == 0 { ("c", "s") } else { ("s", "c") };
+        let by_rst = rng.random_range(0..3) != 0;
+        let flush = |w: &mut World, events: &mut Vec<Value>, eps: &mut Vec<(i64, String)>, lose_from: Option<u8>| {
+            events.push(w.egress());
+            poll_into(w, events, eps);
+            while !w.wire.is_empty() {
+                let src = w.pkt_json(&w.wire[0].0.clone())["src"].as_u64().unwrap_or(0) as u8;
+                if lose_from == Some(src) {
+                    events.push(w.drop_pk(1).unwrap());
+                } else {
+                    events.push(w.deliver(1).unwrap());
+                    poll_into(w, events, eps);
+                }
+            }
+        };
+        if by_rst {
+            // a writes something b never reads (so that b's drop resets the connection)
+            let data = w.next_bytes(p, a, 1);
+            if let Some(e) = w.write(p, a, &data) {
+                events.push(e);
+            }
+            flush(&mut w, events, &mut eps, None);
+        }
+        // b sends its data and (mostly) its FIN; a does not read
+        let n = rng.random_range(1..=rc.wmax.max(1));
+        let data = w.next_bytes(p, b, n);
+        if let Some(e) = w.write(p, b, &data) {
+            events.push(e);
+        }
+        if rng.random_range(0..5) != 0 {
+            if let Some(e) = w.shutdown(p, b) {
+                events.push(e);
+            }
+        }
+        flush(&mut w, events, &mut eps, None);
+        flush(&mut w, events, &mut eps, None);
+        if by_rst {
+            if let Some(e) = w.close(p, b) {
+                events.push(e);
+                eps.retain(|x| !(x.0 == p && x.1 == b));
+            }
+            flush(&mut w, events, &mut eps, None);
+        } else {
+            // everything a sends from now on is lost until it gives up
+            let data = w.next_bytes(p, a, 1);
+            if let Some(e) = w.write(p, a, &data) {
+                events.push(e);
+            }
+            let ahost = if a == "c" { 1 } else { 2 };
+            for _ in 0..(rc.idle_rounds + 2) {
+                flush(&mut w, events, &mut eps, Some(ahost));
+            }
+        }
+        // only now a reads
+        for _ in 0..3 {
+            match w.read(p, a, rc.rmax.max(1)) {
+                Some(e) => {
+                    let res = e["res"].as_str().unwrap_or("").to_string();
+                    events.push(e);
+                    if res != "data" {
+                        break;
+                    }
+                }
+                None => break,
+            }
+        }
+    }
+    settle(&mut w, events, &mut eps, rc);
+    w.teardown();
+}
+
+/// Directed choreography 7: more overlapping handshakes than the backlog, a partly full accept
+/// queue, and no accept until the end.
+fn backlog_run(cfg: &Cfg, rc: &RCfg, rng: &mut StdRng, events: &mut Vec<Value>) {
+    let mut w = World::new(cfg);
+    let mut eps: Vec<(i64, String)> = Vec::new();
+    let mut drops = 0u32;
+    events.push(w.listen());
+    let first = rng.random_range(0..cfg.backlog.max(1));
+    let round = |w: &mut World, events: &mut Vec<Value>, eps: &mut Vec<(i64, String)>, rng: &mut StdRng, drops: &mut u32| {
+        events.push(w.egress());
+        poll_into(w, events, eps);
+        flush_wire(w, events, eps, rng, drops, 0, 0);
+    };
+    // some handshakes complete first (they sit in the accept queue) ...
+    for _ in 0..first {
+        events.push(w.connect());
+        for _ in 0..3 {
+            round(&mut w, events, &mut eps, rng, &mut drops);
+        }
+    }
+    // ... then the rest overlap
+    for _ in first..rc.nconn {
+        events.push(w.connect());
+        if rng.random_range(0..4) == 0 {
+            round(&mut w, events, &mut eps, rng, &mut drops);
+        }
+    }
+    for _ in 0..(rc.idle_rounds + 4) {
+        round(&mut w, events, &mut eps, rng, &mut drops);
+    }
+    settle(&mut w, events, &mut eps, rc);
+    w.teardown();
+}
+
+/// Directed choreography 8: accept futures with their own wakers; an earlier one is polled once
+/// and dropped, a later one is parked when the connection arrives.
+fn acceptwake_run(cfg: &Cfg, rc: &RCfg, rng: &mut StdRng, events: &mut Vec<Value>) {
+    let mut w = World::new(cfg);
+    let mut eps: Vec<(i64, String)> = Vec::new();
+    events.push(w.listen());
+    let nstale = rng.random_range(0..3);
+    let mut id = 0u64;
+    for _ in 0..nstale {
+        id += 1;
+        events.extend(w.accept_park(id));
+        if let Some(e) = w.accept_drop(id) {
+            events.push(e);
+        }
+    }
+    id += 1;
+    events.extend(w.accept_park(id));
+    let nconn = rng.random_range(1..=rc.nconn.max(1));
+    for _ in 0..nconn {
+        events.push(w.connect());
+    }
+    for _ in 0..(2 * rc.idle_rounds + 6) {
+        events.push(w.egress());
+        poll_into(&mut w, events, &mut eps);
+        events.push(w.wakes());
+        while !w.wire.is_empty() {
+            events.push(w.deliver(1).unwrap());
+            poll_into(&mut w, events, &mut eps);
+        }
+        // a task whose waker fired polls its accept again (and parks again if nothing is left)
+        for e in w.accept_repoll() {
+            if e["ev"] == "accept" {
+                eps.push((e["pp"].as_i64().unwrap(), "s".into()));
+            }
+            events.push(e);
+        }
+    }
+    for (a, _) in w.parked.clone() {
+        events.push(json!({"ev": "aunpark", "a": a, "why": "end"}));
+    }
+    w.parked.clear();
+    settle(&mut w, events, &mut eps, rc);
+    w.teardown();
+}
+
+/// Directed choreography 9: the connector host also holds a loopback connection (created
+/// first) with data pending in the same egress pass as the cross-host connection. Loopback
+/// packets fold back inside egress; only the cross-host packets are seen and judged.
+fn lomss_run(cfg: &Cfg, rc: &RCfg, rng: &mut StdRng, events: &mut Vec<Value>) {
+    let mut w = World::new(cfg);
+    let mut eps: Vec<(i64, String)> = Vec::new();
+    let ok = w.lo_setup();
+    events.push(w.listen());
+    if let (true, Some(p)) = (ok, establish(&mut w, events, &mut eps)) {
+        for _ in 0..(4 + rng.random_range(0..4)) {
+            w.lo_traffic(rng.random_range(1..=64));
+            let n = rng.random_range(1..=rc.wmax.max(1));
+            let data = w.next_bytes(p, "c", n);
+            if let Some(e) = w.write(p, "c", &data) {
+                events.push(e);
+            }
+            events.push(w.egress());
+            poll_into(&mut w, events, &mut eps);
+            while !w.wire.is_empty() {
+                events.push(w.deliver(1).unwrap());
+                poll_into(&mut w, events, &mut eps);
+            }
+            if let Some(e) = w.read(p, "s", rc.rmax.max(1)) {
+                events.push(e);
+            }
+        }
+    }
+    settle(&mut w, events, &mut eps, rc);
+    w.teardown();
+}
+
 fn random(args: &[String]) {
     let cfg = Cfg::from_args(args);
     let seed = arg_u64(args, "seed", 1);
@@ -1225,6 +1594,11 @@ fn random(args: &[String]) {
             "lsndrop" => lsndrop_run(&cfg, &rc, &mut rng, &mut evs),
             "hsackloss" => hsackloss_run(&cfg, &rc, &mut rng, &mut evs),
             "overlap" => overlap_run(&cfg, &rc, &mut rng, &mut evs),
+            "pipeline" => pipeline_run(&cfg, &rc, &mut rng, &mut evs),
+            "abortread" => abortread_run(&cfg, &rc, &mut rng, &mut evs),
+            "backlog" => backlog_run(&cfg, &rc, &mut rng, &mut evs),
+            "acceptwake" => acceptwake_run(&cfg, &rc, &mut rng, &mut evs),
+            "lomss" => lomss_run(&cfg, &rc, &mut rng, &mut evs),
             _ => random_run(&cfg, &rc, &mut rng, &mut evs),
         });
         events.extend(evs);
